@@ -469,7 +469,15 @@ pub fn shrink_key(sig: &str) -> String {
 }
 
 pub fn catch_check<E, C>(check: &dyn Fn(&mut E, &C) -> Verdict, env: &mut E, case: &C) -> Verdict {
-    match catch_unwind(AssertUnwindSafe(|| check(env, case))) {
+    let r = catch_unwind(AssertUnwindSafe(|| check(env, case)));
+    // every allocation carries a canary red zone (guard_alloc.rs): a write past the end of any
+    // block, e.g. past the reserved capacity of a term heap, shows up here
+    if let Some((n, size, off)) = crate::guard_alloc::take_corruptions() {
+        if !matches!(r, Ok(Verdict::Fail { .. })) {
+            return Verdict::fail("heap-overrun:canary", format!("{n} allocation(s) were written past their end (last: block of {size} bytes, first bad byte {off} past the end)"));
+        }
+    }
+    match r {
         Ok(v) => v,
         Err(_) => {
             let p = crate::session::take_last_panic();
